@@ -271,6 +271,38 @@ class Flattener:
             ast.fix_missing_locations(second)
             rep = self.expand_stmt(first, ctx_fi, caller_names | {tmp}, stack, depth)
             return (rep if rep is not None else [first]) + [second]
+        if isinstance(s, (ast.Expr, ast.Assign)) and isinstance(s.value, ast.Call) and len(s.value.args) == 1 and isinstance(s.value.args[0], ast.Starred) \
+                and isinstance(s.value.args[0].value, ast.Call) and (isinstance(s.value.func, ast.Name) or (isinstance(s.value.func, ast.Attribute) and _simple(s.value.func.value))):
+            # f(*helper(a, b))  ==>  the helper's body with `return (x, y)` replaced by `f(x, y)`
+            inner = s.value.args[0].value
+            t = self.inlinable_target(inner, ctx_fi, stack)
+            bound = self.bind(inner, t, caller_names) if t is not None else None
+            if bound is not None:
+                prologue, body = bound
+                outer_call = s.value
+
+                def make(v, at):
+                    if isinstance(v, ast.Tuple) and not any(isinstance(x, ast.Starred) for x in v.elts):
+                        args = list(v.elts)
+                    else:
+                        args = [ast.Starred(value=v if v is not None else ast.Constant(value=None), ctx=ast.Load())]
+                    call = ast.Call(func=copy.deepcopy(outer_call.func), args=args, keywords=copy.deepcopy(outer_call.keywords))
+                    if isinstance(s, ast.Assign):
+                        return [ast.copy_location(ast.Assign(targets=copy.deepcopy(s.targets), value=call), at)]
+                    return [ast.copy_location(ast.Expr(value=call), at)]
+                body2, needs = self.replace_returns(body, make)
+                if body and not isinstance(body[-1], (ast.Return, ast.Raise)):
+                    body2 = body2 + make(None, s)
+                if needs:
+                    new = prologue + [ast.copy_location(ast.While(test=ast.Constant(value=True), body=body2 + [ast.copy_location(ast.Break(), s)], orelse=[]), s)]
+                else:
+                    new = prologue + body2
+                for x in new:
+                    ast.fix_missing_locations(x)
+                self.inlined.append((ctx_fi.short, t.short))
+                if depth > 1:
+                    new = self.flatten_block(new, ctx_fi, caller_names | _names_stored(new), stack + (t.qualname,), depth - 1, resolve_ctx=t)
+                return new
         if isinstance(s, ast.Raise) and isinstance(s.exc, ast.Call) and self.inlinable_target(s.exc, ctx_fi, stack) is not None:
             # raise helper(args)  ==>  exc = helper(args); raise exc
             tmp = f"exc_h{next(_counter)}"
